@@ -70,9 +70,14 @@ namespace nmtools::meta
     >
     {
         static constexpr auto vtype = [](){
-            if constexpr (
+            // NOTE: a clipped shape only bounds the extents: which of them are 1 (hence the resulting dimension)
+            // is only known at run time, so only a constant shape can be squeezed at compile time
+            if constexpr (is_clipped_index_array_v<shape_t>) {
+                constexpr auto N = len_v<shape_t>;
+                using type = array::static_vector<size_t,N>;
+                return as_value_v<type>;
+            } else if constexpr (
                 is_constant_index_array_v<shape_t>
-                || is_clipped_index_array_v<shape_t>
             ) {
                 constexpr auto src_shape = to_value_v<shape_t>;
                 constexpr auto dst_shape = index::shape_squeeze(src_shape);
